@@ -1853,48 +1853,52 @@ class UnionSet(AbstractValue):
 
 
 def _is_unicode_category_comp(e, evaluate=None):
-    """Recognise {c for c in X if <test on category(c)>}: returns the prefix or the set of categories accepted,
-    for the tests  category(c).startswith(K),  category(c) in <constant collection>,  category(c) == K,
-    category(c)[0] == K.  `evaluate` folds a non-literal collection expression (a module constant)."""
+    """{c for c in X if <test>} where the test looks at c only through category(c): the set is a union of general
+    categories. The test is evaluated once per category with category(c) replaced by that category's name (so it may
+    be spelled with startswith, ==, in, slices, ...). Returns the frozenset of accepted categories, or None when the
+    comprehension is not of that shape or the test cannot be evaluated on constants."""
     if len(e.generators) != 1 or not isinstance(e.elt, ast.Name):
         return None
     g = e.generators[0]
-    if len(g.ifs) != 1:
+    if len(g.ifs) != 1 or not isinstance(g.target, ast.Name) or g.target.id != e.elt.id or evaluate is None:
         return None
-    t = g.ifs[0]
+    var = g.target.id
+    test = g.ifs[0]
 
     def is_cat(x):
         return isinstance(x, ast.Call) and isinstance(x.func, (ast.Name, ast.Attribute)) and \
-            (x.func.id if isinstance(x.func, ast.Name) else x.func.attr) == 'category' and len(x.args) == 1
-    if (isinstance(t, ast.Call) and isinstance(t.func, ast.Attribute) and t.func.attr == 'startswith'
-            and is_cat(t.func.value) and len(t.args) == 1):
-        a = t.args[0]
-        if isinstance(a, ast.Constant) and isinstance(a.value, str):
-            return a.value
-        if isinstance(a, ast.Tuple) and all(isinstance(x, ast.Constant) and isinstance(x.value, str) for x in a.elts):
-            return frozenset(c for c in ALL_CATEGORIES if c.startswith(tuple(x.value for x in a.elts)))
+            (x.func.id if isinstance(x.func, ast.Name) else x.func.attr) == 'category' and len(x.args) == 1 \
+            and isinstance(x.args[0], ast.Name) and x.args[0].id == var and not x.keywords
+    cat_calls = [n for n in ast.walk(test) if is_cat(n)]
+    if not cat_calls:
         return None
-    if isinstance(t, ast.Compare) and len(t.ops) == 1:
-        l, op, r = t.left, t.ops[0], t.comparators[0]
-        if is_cat(l) and isinstance(op, ast.In):
-            vals = None
-            try:
-                vals = ast.literal_eval(r)
-            except (ValueError, SyntaxError):
-                if evaluate is not None:
-                    try:
-                        vals = evaluate(r)
-                    except Exception:
-                        vals = None
-            if isinstance(vals, (set, frozenset, list, tuple)) and all(isinstance(x, str) for x in vals):
-                return frozenset(vals) & frozenset(ALL_CATEGORIES)
+    inside = {id(n.args[0]) for n in cat_calls}
+    if any(isinstance(n, ast.Name) and n.id == var and id(n) not in inside for n in ast.walk(test)):
+        return None         # the element is also looked at directly
+
+    src = ast.unparse(test)
+    if src in _CATEGORY_COMP_MEMO:
+        return _CATEGORY_COMP_MEMO[src]
+    calls = sorted({ast.unparse(n) for n in cat_calls}, key=len, reverse=True)
+    out = set()
+    for cat in ALL_CATEGORIES:
+        text = src
+        for c_ in calls:
+            text = text.replace(c_, repr(cat))      # the nodes carry parent links: substitution is done on the text
+        try:
+            t = ast.parse(text, mode='eval').body
+            v = evaluate(t)
+        except Exception:
             return None
-        if is_cat(l) and isinstance(op, ast.Eq) and isinstance(r, ast.Constant) and isinstance(r.value, str):
-            return frozenset([r.value]) & frozenset(ALL_CATEGORIES)
-        if isinstance(l, ast.Subscript) and is_cat(l.value) and isinstance(l.slice, ast.Constant) and l.slice.value == 0 \
-                and isinstance(op, ast.Eq) and isinstance(r, ast.Constant) and isinstance(r.value, str) and len(r.value) == 1:
-            return r.value
-    return None
+        if is_abstract(v):
+            return None
+        if v:
+            out.add(cat)
+    _CATEGORY_COMP_MEMO[src] = frozenset(out)
+    return _CATEGORY_COMP_MEMO[src]
+
+
+_CATEGORY_COMP_MEMO = {}
 
 
 class PyMethod:
